@@ -686,7 +686,10 @@ pub fn decode_lenient(data: &[u8]) -> Sequence {
                     let with_prefix = c.u8() & 1 == 1;
                     let n = c.u8() % 4;
                     let muts = (0..n)
-                        .map(|_| match c.u8() % 6 {
+                        .map(|_| match c.u8() % 9 {
+                            6 => gens::Mut::Utf8At(c.u16(), c.u8()),
+                            7 => gens::Mut::Prepend(c.u8()),
+                            8 => gens::Mut::Append(c.u8()),
                             0 => gens::Mut::FlipCase(c.u16()),
                             1 => gens::Mut::LowerAll,
                             2 => gens::Mut::Replace(c.u16(), c.u8(), c.u8()),
